@@ -702,7 +702,8 @@ LEVEL_TEXT = ('Exploration by runtime monitoring: icontract postconditions on th
               'queries (all nine regions, nodes, edge mid-points, exact extremes, 1e-9..10 spans outside), both modes, '
               'cross-section and k-table layouts, in-memory and pickle-file routes come from a seeded generator; '
               'kernels run under NUMBA_BOUNDSCHECK=1 (thorough: also with the JIT disabled). Held = held on the '
-              'recorded executions.')
+              'recorded executions.'
+              ' Results the caller keeps and work arrays it re-uses are followed by an ownership ledger (vmon/own.py).')
 LEVEL_NOTE = ('Trusted: the reference interpolation written in vmon/props/c04.py from the statement and DESIGN.md; '
               'tolerance 1e-12 of the largest adjacent node for bounds (rounding of the kernels), 1e-10 relative for '
               'formulas. Exact zeros in exp mode are observed only.')
